@@ -17,6 +17,7 @@
 #include <stdio.h>
 #include <stdlib.h>
 #include <string.h>
+#include <unistd.h>
 
 #include "cmb_dataset.h"
 #include "cmb_timeseries.h"
@@ -142,6 +143,7 @@ static void report_five(const char *tag, char *buf)
 }
 
 #define MAXTOK 200000
+#define OP_TIME_LIMIT_S 10
 
 int main(void)
 {
@@ -163,6 +165,7 @@ int main(void)
         }
         if (nt == 0) continue;
         const char *op = tok[0];
+        alarm(OP_TIME_LIMIT_S);     /* an operation that does not come back is killed (SIGALRM) */
 
         if (strcmp(op, "cfg") == 0) {
             printf("cfg %u\n", (unsigned)CMI_DATASET_INIT_SZ);
@@ -219,16 +222,14 @@ int main(void)
             free(buf);
         }
         else if ((strcmp(op, "hist") == 0 || strcmp(op, "thist") == 0) && nt == 4) {
-            char *buf = NULL;
-            size_t len = 0;
-            FILE *mf = open_memstream(&buf, &len);
+            /* the picture itself is not compared: it goes to /dev/null (unbounded if the bar scale is 0) */
+            FILE *mf = fopen("/dev/null", "w");
             const unsigned nb = (unsigned)strtoul(tok[1], NULL, 10);
             cap_begin();
             if (op[0] == 't') cmb_timeseries_histogram_print(&ts, mf, (uint16_t)nb, parse_num(tok[2]), parse_num(tok[3]));
             else cmb_dataset_histogram_print(&ds, mf, nb, parse_num(tok[2]), parse_num(tok[3]));
             cap_end();
             fclose(mf);
-            free(buf);
             report_hist(op);
         }
         else if ((strcmp(op, "acf") == 0 || strcmp(op, "tacf") == 0) && nt == 2) {
@@ -243,6 +244,37 @@ int main(void)
             }
             printf("\n");
             free(a);
+        }
+        else if (strcmp(op, "acfrel") == 0 && nt == 4) {
+            /* ACF of the samples and of scale * x + shift (a second, real dataset) */
+            const unsigned n = (unsigned)strtoul(tok[1], NULL, 10);
+            const double scale = parse_num(tok[2]);
+            const double shift = parse_num(tok[3]);
+            struct cmb_dataset d2;
+            cmb_dataset_initialize(&d2);
+            for (uint64_t i = 0; i < ds.count; i++) cmb_dataset_add(&d2, ds.xa[i] * scale + shift);
+            double *a = malloc((n + 1u) * sizeof(double));
+            double *b = malloc((n + 1u) * sizeof(double));
+            cmb_dataset_ACF(&ds, n, a);
+            cmb_dataset_ACF(&d2, n, b);
+            printf("acfrel");
+            for (unsigned i = 0; i <= n; i++) { printf(" "); pd(a[i]); }
+            printf(" |");
+            for (unsigned i = 0; i <= n; i++) { printf(" "); pd(b[i]); }
+            printf("\n");
+            free(a);
+            free(b);
+            cmb_dataset_terminate(&d2);
+        }
+        else if (strcmp(op, "corr") == 0 && nt == 2) {
+            const unsigned n = (unsigned)strtoul(tok[1], NULL, 10);
+            char *buf = NULL;
+            size_t len = 0;
+            FILE *mf = open_memstream(&buf, &len);
+            cmb_dataset_correlogram_print(&ds, mf, n, NULL);
+            fclose(mf);
+            free(buf);
+            printf("corr ok\n");
         }
         else if (strcmp(op, "ts") == 0) {
             cmb_timeseries_reset(&ts);
